@@ -458,7 +458,7 @@ def train_windows(tier):
     return wins
 
 
-TRAIN_CFGS = [(2, 2, 4), (1, 1, 4), (3, 3, 3)]   # (min_training_samples, min_observations, window_size)
+TRAIN_CFGS = [(2, 2, 4), (1, 1, 4), (2, 2, 2)]   # (min_training_samples, min_observations, window_size)
 
 
 def train_case(cfg, window, canaries):
@@ -483,8 +483,11 @@ def train_case(cfg, window, canaries):
 
 def _train_jobs(tier):
     n = len(train_windows(tier))
+    n3 = len(obs_alphabet(tier)) ** 2 + len(obs_alphabet(tier)) ** 3      # windows of length 2 and 3 come first
     cfgs = TRAIN_CFGS[:1] if tier == "quick" else TRAIN_CFGS
-    return [(tier, cfg, lo, min(n, lo + 1500)) for cfg in cfgs for lo in range(0, n, 1500)]
+    # the two extra configurations (single-sample training; eviction at window_size 3) run on lengths 2-3 only
+    return [(tier, cfg, lo, min(n if cfg == TRAIN_CFGS[0] else n3, lo + 1500))
+            for cfg in cfgs for lo in range(0, n if cfg == TRAIN_CFGS[0] else n3, 1500)]
 
 
 def _train_work(job):
